@@ -14,6 +14,7 @@ INJECT = {
     ],
     "ide": [
         ("harness/ide/line_index_h.rs", "crates/ide/src/line_index.rs", "verif_line_index_h"),
+        ("harness/ide/typ_h.rs", "crates/ide/src/symbol_map/typ.rs", "verif_typ_h"),
     ],
     "lsp": [
         ("harness/lsp/position_h.rs", "crates/lsp/src/lib.rs", "verif_position_h"),
@@ -40,6 +41,7 @@ KF_IDS = [
     "C14_DIGIT_LEADING_IDENT", "C14_ESCAPED_BACKSLASH_BEFORE_QUOTE",
     "C14_NESTED_BLOCK_COMMENT", "C14_SIGN_AT_EOF",
     "C15_EOF_IN_DISABLED_REGION", "C15_UNTERMINATED_ENABLED_CONDITIONAL",
+    "C20_BANG_OFFERED_NOT_LEXED", "C20_BANG_LEXED_NOT_OFFERED",
 ]
 
 
@@ -50,7 +52,7 @@ def H(name, props, tier="quick", timeout=900, weight=10, mem_gb=16, **kw):
 
 
 HARNESSES = [
-    H("c14c01c02_lexer_dispatch", ["C14", "C01", "C02", "C17"], weight=20),
+    H("c14c01c02_lexer_dispatch", ["C14", "C01", "C02", "C17", "C20"], weight=20),
     H("c14c01c02_lex_whitespace_q", ["C14", "C01", "C02", "C17"]),
     H("c14c01c02_lex_line_comment_q", ["C14", "C01", "C02", "C17"]),
     H("c14c01c02_lex_block_comment_q", ["C14", "C01", "C02", "C17"]),
@@ -86,6 +88,14 @@ HARNESSES += [
 ] + [
     H(f"c15c01c02_pp_{n}_t", ["C15", "C01", "C02"], tier="thorough", weight=100, timeout=3600)
     for n in ["ifdef", "ifndef", "else"]
+]
+HARNESSES += [
+    H("c13_cast_relation_q", ["C13"], weight=60, stubs=1),
+    H("c13_cast_relation_t", ["C13"], tier="thorough", weight=300, timeout=7200, mem_gb=30, stubs=1),
+]
+HARNESSES += [
+    H("c20_bang_vocabulary", ["C20"], weight=120, needs_completion=True, timeout=1800),
+    H("c20_keyword_vocabulary", ["C20"], weight=60, needs_completion=True),
 ]
 L1 = ["c01c02_l1_eat", "c01c02_l1_skip", "c01c02_l1_eat_if", "c01c02c17_l1_expect_with_msg",
       "c01c02_l1_assert", "c01c02c17_l1_error_and_eat", "c01c02c17_l1_error_and_recover",
@@ -140,6 +150,18 @@ PROP_META = {
                   "{#ifdef,#ifndef,#else,#endif,#define,Id(M|N),;,ws}; macro set empty",
         "outside": "non-empty macro sets (HashSet insert explodes), manual composition of steps",
         "assumptions": ["define_macro replaced by ghost recorder", "RandomState::new fixed"],
+    },
+    "C13": {
+        "bounds": "all pairs of record-free types of list-nesting depth <= 2 (thorough 3), bits widths 0..3",
+        "outside": "pairs involving Type::Record (class hierarchy lookup through IndexMap/arena: measured "
+                   "time-out), check_template_args, unresolved names, operator arity, syntax-error merging",
+        "assumptions": ["SymbolMap::default() (never consulted for record-free types)", "RandomState::new fixed"],
+    },
+    "C20": {
+        "bounds": "every word of <= 12 bytes over [a-z0-9_] after `!`; the finite offered keyword/type/value lists",
+        "outside": "class-name completion (whole programs); completion contexts other than the four dumped",
+        "assumptions": ["completion tables obtained by running the real Analysis::completion natively on 5 fixtures",
+                        "Lexer::error stubbed"],
     },
     "C14": {
         "bounds": "one lexer step on every ASCII text of <= 6 bytes (block comments/#: 8, code: 7); "
